@@ -203,4 +203,130 @@ theorem toTP_termSetpen (cache p : Pen) (hf : Pen.getColour p.fg < 256) (hb : Pe
   · simp only [toTP, termSetpen, TermPen.termCache, setAttr_bool, setAttr_int, f1, b1]
   · simp only [toTP, termSetpenDelta, TermPen.termDelta, setAttr_bool, setAttr_int, f2, b2]
 
+/-! ### A setpen request on the VT screen -/
+
+theorem convPen_toTP (p : Pen) (hf : Pen.getColour p.fg < 256) (hb : Pen.getColour p.bg < 256) :
+    TermPen.convPen 256 (toTP p) = toTP p := by
+  have h1 : (p.fg.map toTPColour).map (TermPen.convColour 256) = p.fg.map toTPColour := by
+    cases h : p.fg with
+    | none => rfl
+    | some c =>
+      rw [h] at hf
+      simp only [Option.map_some]
+      rw [Tickit.Proof.Sgr.convColour_of_lt]
+      exact hf
+  have h2 : (p.bg.map toTPColour).map (TermPen.convColour 256) = p.bg.map toTPColour := by
+    cases h : p.bg with
+    | none => rfl
+    | some c =>
+      rw [h] at hb
+      simp only [Option.map_some]
+      rw [Tickit.Proof.Sgr.convColour_of_lt]
+      exact hb
+  simp only [TermPen.convPen, toTP, h1, h2]
+
+/-- With colour indices below `tt->colors` the rendition a pen asks for is C10's `expectAttrs` of the same pen. -/
+theorem expectAttrs_toTP (caps : TermPen.Caps) (p : Pen) (hf : Pen.getColour p.fg < 256) (hb : Pen.getColour p.bg < 256) :
+    expectAttrs caps p = TermPen.expectAttrs caps (toTP p) := by
+  unfold expectAttrs TermPen.expected
+  simp only [convPen_toTP p hf hb]
+
+theorem deltaOk_of_encodable (caps : TermPen.Caps) (p : Pen) (h : PenEncodable caps p) :
+    Tickit.Proof.Sgr.DeltaOk caps (toTP p) := by
+  obtain ⟨_, _, _, _, hu0, hu2, hs0, hs3, hsn⟩ := h
+  constructor
+  · intro v hv
+    have e : Pen.getInt p.under = v := by
+      simp only [toTP] at hv
+      simp [hv, Pen.getInt]
+    rw [e] at hu0 hu2
+    refine ⟨hu0, ?_⟩
+    cases hc : caps.colon
+    · exact Or.inr (hu2 hc)
+    · exact Or.inl rfl
+  · intro v hv
+    have e : Pen.getInt p.sizepos = v := by
+      simp only [toTP] at hv
+      simp [hv, Pen.getInt]
+    rw [e] at hs0 hs3 hsn
+    simp only [Tickit.Gen.Sgr.sizeposSmall, Tickit.Gen.Sgr.sizeposSuperscript, Tickit.Gen.Sgr.sizeposSubscript] at *
+    omega
+
+theorem setAttr_fst {α : Type} (eqv : Option α → Option α → Bool) (val : Option α → α) (t p : Option α) :
+    (setAttr eqv val t p).1 = t ∨ (setAttr eqv val t p).1 = some (val p) := by
+  unfold setAttr
+  split
+  · exact Or.inl rfl
+  · exact Or.inr rfl
+
+theorem setAttr_fst_isSome {α : Type} (eqv : Option α → Option α → Bool) (val : Option α → α) (t p : Option α) :
+    (setAttr eqv val t p).1.isSome = true := by
+  unfold setAttr
+  split
+  · rename_i h
+    simp only [Bool.and_eq_true] at h
+    exact h.1
+  · rfl
+
+/-- `tt->pen` holds every attribute after a `tickit_term_setpen`. -/
+theorem penTotal_termSetpen (cache p : Pen) : PenTotal (termSetpen cache p) := by
+  simp [PenTotal, termSetpen, setAttr_fst_isSome]
+
+theorem getColour_colourVal (o : Option Colour) : Pen.getColour (some (colourVal o)) = Pen.getColour o := rfl
+theorem getInt_some_getInt (o : Option Int) : Pen.getInt (some (Pen.getInt o)) = Pen.getInt o := rfl
+
+/-- A pen the driver can say stays one after `tickit_term_setpen` with a pen the driver can say. -/
+theorem penEncodable_termSetpen (caps : TermPen.Caps) (cache p : Pen) (hc : PenEncodable caps cache)
+    (hp : PenEncodable caps p) : PenEncodable caps (termSetpen cache p) := by
+  unfold PenEncodable at *
+  simp only [termSetpen]
+  cases hcol : caps.colon <;> simp only [hcol, forall_const, Bool.true_eq_false, false_implies, true_and, and_true,
+    Bool.false_eq_true] at hc hp ⊢ <;>
+  rcases setAttr_fst Pen.equivColour colourVal cache.fg p.fg with h1 | h1 <;>
+  rcases setAttr_fst Pen.equivColour colourVal cache.bg p.bg with h2 | h2 <;>
+  rcases setAttr_fst Pen.equivInt Pen.getInt cache.under p.under with h3 | h3 <;>
+  rcases setAttr_fst Pen.equivInt Pen.getInt cache.sizepos p.sizepos with h4 | h4 <;>
+  simp only [h1, h2, h3, h4, getColour_colourVal, getInt_some_getInt] <;>
+  simp only [Tickit.Gen.Sgr.sizeposSmall] at * <;> omega
+
+/-- **setpen on the VT screen**: a setpen request of the flush - `tickit_term_setpen`'s delta against `tt->pen`, rendered
+    by the driver's `chpen` - read by a VT screen whose rendition is in step with `tt->pen` changes nothing but the
+    rendition, and leaves it in step with `tt->pen` as it is afterwards: for every cached pen and every requested pen the
+    driver can say in SGR, both separators, with and without RGB. -/
+theorem interp_setpen (caps : TermPen.Caps) (cache p : Pen) (s : XScreen) (hg : s.ps = .ground)
+    (ha : s.attrs = expectAttrs caps cache) (hc : PenEncodable caps cache) (hp : PenEncodable caps p) :
+    s.interp (reqCalls caps cache (.setpen p)).flatten = { s with attrs := expectAttrs caps (termSetpen cache p) } := by
+  obtain ⟨hc1, hd1⟩ := toTP_termSetpen cache p hp.2.1 hp.2.2.2.1
+  have henc := penEncodable_termSetpen caps cache p hc hp
+  simp only [reqCalls, chpenCalls]
+  rw [hd1, hc1]
+  cases hx : TermPen.xtermChpen caps Tickit.Gen.Sgr.paramsCap (TermPen.termDelta true 256 (toTP cache) (toTP p))
+      (TermPen.termCache true 256 (toTP cache) (toTP p)) with
+  | overflow k =>
+    exfalso
+    have hl := Tickit.Proof.Sgr.length_flatten_comps caps (TermPen.termDelta true 256 (toTP cache) (toTP p))
+    unfold TermPen.xtermChpen at hx
+    simp only [Tickit.Gen.Sgr.paramsCap] at hx
+    have hle : ¬ (TermPen.flatten (TermPen.comps caps (TermPen.termDelta true 256 (toTP cache) (toTP p)))).length > 20 := by
+      omega
+    by_cases h0 : (TermPen.flatten (TermPen.comps caps (TermPen.termDelta true 256 (toTP cache) (toTP p)))).length = 0
+    · simp [hle, h0] at hx
+    · by_cases h1 : TermPen.isNondefault (TermPen.termCache true 256 (toTP cache) (toTP p)) = true
+      · simp [hle, h0, h1] at hx
+      · simp [hle, h0, h1] at hx
+  | bytes bs =>
+    simp only [call_flatten]
+    obtain ⟨h1, _⟩ := XScreen.interp_chpen_bytes caps _ _ _ bs hx s hg
+    have hb : bs.map UInt8.ofNat = toBytes bs := rfl
+    rw [hb, h1]
+    let cfg : TermPen.Cfg := ⟨256, caps, Tickit.Gen.Sgr.paramsCap⟩
+    have hstep : TermPen.step cfg ⟨toTP cache, ⟨.ground, s.attrs⟩⟩ (.set (toTP p)) =
+        some ⟨TermPen.termCache true 256 (toTP cache) (toTP p), Sgr.run bs ⟨.ground, s.attrs⟩⟩ := by
+      simp only [TermPen.step, TermPen.emit, TermPen.Op.isSet, TermPen.Op.pen, cfg, hx]
+    have hinv : Tickit.Proof.Sgr.Inv cfg.caps ⟨toTP cache, ⟨.ground, s.attrs⟩⟩ :=
+      ⟨rfl, by rw [ha]; exact expectAttrs_toTP caps cache hc.2.1 hc.2.2.2.1⟩
+    have := (Tickit.Proof.Sgr.step_inv cfg _ _ (.set (toTP p)) (deltaOk_of_encodable caps p hp) hinv hstep).1.2
+    simp only [TermPen.Op.isSet, cfg] at this
+    rw [this, ← hc1, ← expectAttrs_toTP caps _ henc.2.1 henc.2.2.2.1]
+
 end Tickit.RBFlushX
